@@ -172,42 +172,57 @@ theorem den_mk_qubit (nt : Term) (c : GQ) (hv : Sem.ValidQ nt) (s t : Nat) :
   simp only [mk, simplify, Sem.den_cons, Sem.den_nil, add_zero]
   rw [mul_assoc, this]
 
-theorem den_iadd_zero (A B : Op) (s t : Nat) :
-    Sem.den .qubit (Model.iadd 0 A B) [s] [t] = Sem.den .qubit A [s] [t] + Sem.den .qubit B [s] [t] := by
-  rw [semDen_eq_modelDen, semDen_eq_modelDen, semDen_eq_modelDen, den_iadd 0 _ A B (exactAdd_zero B A)]
+theorem den_iadd_exact (tol : Rat) (A B : Op) (h : exactAddB tol A B = true) (s t : Nat) :
+    Sem.den .qubit (Model.iadd tol A B) [s] [t] = Sem.den .qubit A [s] [t] + Sem.den .qubit B [s] [t] := by
+  rw [semDen_eq_modelDen, semDen_eq_modelDen, semDen_eq_modelDen,
+    den_iadd tol _ A B (exactAddB_sound tol B A h)]
 
-/-- the loop of `project_onto_sector` (pruning-free arithmetic) -/
-theorem project_fold (qubits sectors : List Nat) (E : Nat → Nat) (hE : Emb qubits sectors E)
+theorem projPiece_none (qubits sectors : List Nat) (x : Term × GQ)
+    (h : x.1.any (fun t => qubits.contains t.1 && (t.2 == 1 || t.2 == 2)) = true) :
+    projPiece qubits sectors x = none := by
+  unfold projPiece
+  rw [if_pos h]
+
+theorem projPiece_some (qubits sectors : List Nat) (x : Term × GQ)
+    (h : x.1.any (fun t => qubits.contains t.1 && (t.2 == 1 || t.2 == 2)) = false) :
+    projPiece qubits sectors x
+      = some (mk .qubit (newTerm qubits x.1) (x.2 * GQ.sgn (expo qubits sectors x.1))) := by
+  simp only [projPiece, h, Bool.false_eq_true, if_false, newTerm, expo, foldl_add_eq_sum, Nat.zero_add]
+
+/-- the loop of `project_onto_sector` at the live tolerance, when its exactness flag comes out `true` -/
+theorem project_fold (tol : Rat) (qubits sectors : List Nat) (E : Nat → Nat) (hE : Emb qubits sectors E)
     (hsec : ∀ q, sectors[indexOf qubits q]?.getD 0 = 0 ∨ sectors[indexOf qubits q]?.getD 0 = 1) (s t : Nat) :
-    ∀ (A acc : Op), (∀ e ∈ A, Pauli123 e.1 ∧ e.1.Pairwise (fun a b => a.1 ≠ b.1)) →
-    Sem.den .qubit (A.foldl (fun acc (x : Term × GQ) =>
-      if x.1.any (fun t => qubits.contains t.1 && (t.2 == 1 || t.2 == 2)) then acc
-      else Model.iadd 0 acc (mk .qubit (newTerm qubits x.1)
-        (x.2 * GQ.sgn (((x.1.filter fun t => qubits.contains t.1).map fun t =>
-          sectors[indexOf qubits t.1]?.getD 0).foldl (· + ·) 0)))) acc) [s] [t]
-      = Sem.den .qubit acc [s] [t] + Sem.den .qubit A [E s] [E t] := by
+    ∀ (A : Op) (acc : Op × Bool), (∀ e ∈ A, Pauli123 e.1 ∧ e.1.Pairwise (fun a b => a.1 ≠ b.1)) →
+    (A.foldl (projStep tol qubits sectors) acc).2 = true →
+    acc.2 = true ∧
+    Sem.den .qubit (A.foldl (projStep tol qubits sectors) acc).1 [s] [t]
+      = Sem.den .qubit acc.1 [s] [t] + Sem.den .qubit A [E s] [E t] := by
   intro A
   induction A with
-  | nil => intro acc _; simp [Sem.den_nil]
+  | nil => intro acc _ h; exact ⟨h, by simp [Sem.den_nil]⟩
   | cons e r ih =>
-    intro acc hA
+    intro acc hA hflag
     obtain ⟨τ, c⟩ := e
     obtain ⟨hp, hd⟩ := hA (τ, c) (by simp)
-    simp only [List.foldl_cons]
-    rw [ih _ (fun e he => hA e (List.mem_cons_of_mem _ he)), Sem.den_cons]
+    simp only [List.foldl_cons, projStep] at hflag ⊢
     by_cases hxy : τ.any (fun t => qubits.contains t.1 && (t.2 == 1 || t.2 == 2)) = true
-    · simp only [hxy, if_true]
-      rw [termCoef_dropped qubits sectors E hE τ hd hxy s t]; ring
+    · rw [projPiece_none qubits sectors (τ, c) hxy] at hflag ⊢
+      obtain ⟨h1, h2⟩ := ih acc (fun e he => hA e (List.mem_cons_of_mem _ he)) hflag
+      refine ⟨h1, ?_⟩
+      rw [h2, Sem.den_cons, termCoef_dropped qubits sectors E hE τ hd hxy s t]; ring
     · have hxy' : τ.any (fun t => qubits.contains t.1 && (t.2 == 1 || t.2 == 2)) = false := by simpa using hxy
-      simp only [hxy', Bool.false_eq_true, if_false]
+      rw [projPiece_some qubits sectors (τ, c) hxy'] at hflag ⊢
+      obtain ⟨h1, h2⟩ := ih _ (fun e he => hA e (List.mem_cons_of_mem _ he)) hflag
+      simp only [Bool.and_eq_true] at h1
+      refine ⟨h1.1, ?_⟩
       have hz : ∀ f ∈ τ, f.1 ∈ qubits → f.2 = 3 := by
         intro f hf hq
         have := hp f hf
         rw [List.any_eq_false] at hxy'
-        have h2 := hxy' f hf
+        have h3 := hxy' f hf
         have hc : qubits.contains f.1 = true := by simpa using hq
-        rw [hc] at h2
-        simp at h2
+        rw [hc] at h3
+        simp at h3
         omega
       have hv : Sem.ValidQ (newTerm qubits τ) := by
         intro f hf
@@ -216,9 +231,8 @@ theorem project_fold (qubits sectors : List Nat) (E : Nat → Nat) (hE : Emb qub
         have := hp g hg
         show g.2 < 4
         omega
-      rw [den_iadd_zero, den_mk_qubit _ _ hv, termCoef_kept qubits sectors E hE hsec τ hp hz s t,
-        foldl_add_eq_sum, Nat.zero_add]
-      simp only [expo]
+      rw [h2, den_iadd_exact tol _ _ h1.2, den_mk_qubit _ _ hv, Sem.den_cons,
+        termCoef_kept qubits sectors E hE hsec τ hp hz s t]
       ring
 
 /-! ### a concrete embedding (non-vacuity): remove qubit 0, sector 1 -/
